@@ -799,7 +799,7 @@ func (o *C12) Init(w *World)  { o.refunded = map[string]bool{} }
 
 // refundValue: R = (token+fee+commission) converted back to hub units, truncating.
 func (w *World) refundValue(e *mhub2types.SendToExternal) (string, sdk.Int, bool) {
-	t := w.TokenOf(e.ChainId, e.Token.ExternalTokenId)
+	t := w.TokenOfContract(e.ChainId, e.Token.ExternalTokenId)
 	if t == nil {
 		return "", sdk.Int{}, false
 	}
@@ -1019,7 +1019,7 @@ func (o *C12) AfterEnd(w *World) {
 			if _, oldb := t.PreEnd.InBatch[rch][id]; oldb {
 				continue
 			}
-			tk := w.TokenOf(rch, e.Token.ExternalTokenId)
+			tk := w.TokenOfContract(rch, e.Token.ExternalTokenId)
 			if tk == nil || tk.Denom != denom || e.ExternalRecipient != raddr || e.TxHash != "#" {
 				continue
 			}
